@@ -342,6 +342,13 @@ def check_errors():
     case("width-mismatch", lambda m: connect(m, ok_pair()[0], other({"a": In(3, init=1), "b": Out(3), "s": In(Signature({"x": In(1), "y": Out(1).array(2)}))}).create()), True)
     case("initial-value-mismatch", lambda m: connect(m, ok_pair()[0], other({"a": In(2, init=2), "b": Out(3), "s": In(Signature({"x": In(1), "y": Out(1).array(2)}))}).create()), True)
     case("dimension-mismatch", lambda m: connect(m, ok_pair()[0], other({"a": In(2, init=1), "b": Out(3), "s": In(Signature({"x": In(1), "y": Out(1).array(3)}))}).create()), True)
+    sub = lambda n: Signature({"x": In(1), "y": Out(1).array(2)})
+    arr_a = Signature({"v": Out(sub(0)).array(2)})
+    arr_b = Signature({"v": In(sub(0)).array(3)})
+    arr_c = Signature({"v": In(sub(0))})
+    case("signature-member-dimension-mismatch", lambda m: connect(m, arr_a.create(), arr_b.create()), True)
+    case("signature-member-with-and-without-dimensions", lambda m: connect(m, arr_a.create(), arr_c.create()), True)
+    case("signature-member-dimensions-accepted", lambda m: connect(m, arr_a.create(), arr_a.flip().create()), False)
     case("nested-leaf-width-mismatch", lambda m: connect(m, ok_pair()[0], other({"a": In(2, init=1), "b": Out(3), "s": In(Signature({"x": In(2), "y": Out(1).array(2)}))}).create()), True)
     case("two-outputs-on-a-leaf", lambda m: connect(m, base.create(), base.create()), True)
     case("port-vs-signature-member", lambda m: connect(m, ok_pair()[0], other({"a": In(2, init=1), "b": Out(3), "s": In(1)}).create()), True)
